@@ -592,6 +592,10 @@ def run(ctx):
                          "by its canonical JSON, non-trivial if it has at least one operation")
     ctx.trusted += [
         "translator translate/gen_path.py + py2coq.py (path_padding_param, pad_slice_path -> Gallina)",
+        "translator translate/gen_pathflow.py (+ gen_l2arith.exp): statement-level flow of multi_anchor_behavior, "
+        "path_padding, apply_move, apply_rotation, move/_rotate/rotate/rotate_from_*, _init_position_orientation, the "
+        "pose setters and reset_path as a deep embedding; Proofs/PathFlowProofs.v proves it equal to the structure the "
+        "hand models were written against (Model/PathFlow.v) and interprets pad widths / slices / forwarded arguments",
         "hand models coq/Model/PathModel.v (one object) and coq/Model/CompoundModel.v (recursion of move/_rotate "
         "into children with the handed-down parent_path, child loops of the position/orientation setters, "
         "reset_path), tied by the exact tree-history correspondence",
@@ -603,7 +607,7 @@ def run(ctx):
         "rotate_from_* front ends; the field corollary is proved for an abstract element formula "
         "R_s^-1 R_d f(R_d^-1(p_s + R_s x - p_d)) and checked on real sources through Collection.getB()",
     ]
-    ok = ctx.regen(["GenPath"])
+    ok = ctx.regen(["GenPath", "GenPathFlow"])
     built = ctx.build_props() and ok
     # the physical instance R^3 x SO(3) of the abstract algebra (shared by C03/C04/C06/C09/C10)
     built_r3 = ctx.build_props("Props/RigidR3Inst.v")
